@@ -467,6 +467,18 @@ Theorem C03_step_keeps_cache_before_shanghai : forall H g epochs roots cache ora
 Proof. exact step_keeps_cache_before_shanghai. Qed.
 Print Assumptions C03_step_keeps_cache_before_shanghai.
 
+(* OVERLAPPING calls on one validator.  They see one oracle answer o that extends the cache (or an error, or no oracle); whatever
+   the first call did to the provider, the verdict of the second is the one it gets on the untouched cache: for every
+   interleaving of atomic provider accesses every verdict is ValidateHeaderAndProof of the call's own inputs, and the sequential
+   run_history is the specification of the overlapping groups the harness schedules (first call held inside the oracle lookup
+   until the others have gone as far as they can) *)
+Theorem C03_overlapping_calls_order_independent : forall H g epochs roots cache o n1 hash1 proof1 n2 hash2 proof2,
+  oracle_extends cache o ->
+  fst (validate_step H g epochs roots (snd (validate_step H g epochs roots cache (o, n1, hash1, proof1))) (o, n2, hash2, proof2)) =
+  fst (validate_step H g epochs roots cache (o, n2, hash2, proof2)).
+Proof. exact overlapping_calls_order_independent. Qed.
+Print Assumptions C03_overlapping_calls_order_independent.
+
 (* ---------------------------------------------------------------- premises are satisfiable by non-trivial values *)
 Example C03_nonvacuous :
   let n := 8197 in                                   (* epoch 1, record 5 *)
